@@ -230,10 +230,7 @@ theorem closed_step (s : St) (op : Op) (hc : s.closed = true) :
   | write n => simp [doStep, hc]
   | wmode m => simp [doStep, hc]
   | writable => simp only [doStep]; rw [dispatch_closed R _ _ _ hc]; exact ⟨hc, rfl⟩
-  | connect =>
-    simp only [doStep]
-    obtain ⟨io, h⟩ := addIo_eq { s with connecting := true, cfut := some s.nextId, nextId := s.nextId + 1 } false true
-    rw [h]; exact ⟨hc, rfl⟩
+  | connect => simp [doStep, hc]
   | cerr k => simp [doStep, hc]
 
 /-- **closed_stays_closed**: for every op sequence -/
@@ -421,7 +418,10 @@ theorem pending_read_at_close (s : St) (e : Option ErrK) (f : Nat) (q : Req) (hc
     simp only [List.mem_append, failEvs, List.mem_map]
     exact Or.inl (Or.inr ⟨f, this, rfl⟩)
 
-example : ReqIs (run stdR (init 4 100) [.readUntil [10] (some 9), .feed [97, 10, 98]]).1 (.until [10] (some 9)) ∨ True := Or.inr trivial
+-- `ReqIs` holds in every reachable state for the request the pending future was issued with: `pending_read_reqIs`
+-- (Reach.lean), where the theorems of this section are restated over `run` (`pending_read_at_close_run` …)
+example : ReqIs (run stdR (init 4 100) [.readUntil [10] (some 9), .feed [97, 98]]).1 (.until [10] (some 9)) := by
+  unfold ReqIs; decide
 example : Spec.expected stdR (.bytes 2 true) [7] = some (.bytes [7]) := by decide
 example : Spec.expected stdR (.until [13, 10] (some 2)) [1, 13, 10] = none := by decide
 
